@@ -26,10 +26,11 @@ type gPtr struct {
 	off *pt
 	esz int
 }
-type gArr struct { // pointer to a local array
-	obj int
-	n   int
-	esz int
+type gArr struct { // pointer to an array: a local, or a field of a local struct laid out in one object (base = its offset)
+	obj  int
+	n    int
+	esz  int
+	base int64
 }
 type gRecv struct{ name string }              // the method receiver (its fields are symbolic)
 type gField struct{ recv, field string }      // address of a receiver field
@@ -116,14 +117,40 @@ func (d *protoDom) glueStep(st *sState, in ssa.Instruction) bool {
 		if at, ok := elemT.Underlying().(*types.Array); ok {
 			if esz := elemSize(at.Elem()); esz > 0 {
 				id := d.newGObj(st, "local "+x.Comment, pC(at.Len()*int64(esz)), true)
-				st.vals[x] = gArr{id, int(at.Len()), esz}
+				st.vals[x] = gArr{id, int(at.Len()), esz, 0}
 				return true
 			}
 		}
-		if _, ok := elemT.Underlying().(*types.Struct); ok {
+		if stt, ok := elemT.Underlying().(*types.Struct); ok {
 			// a local object with fields (the cipher a constructor fills): its array fields are objects of their own
 			d.gLocals++
-			st.vals[x] = gRecv{fmt.Sprintf("local %s#%d", x.Comment, d.gLocals)}
+			name := fmt.Sprintf("local %s#%d", x.Comment, d.gLocals)
+			st.vals[x] = gRecv{name}
+			// a struct made of byte arrays only (a scratch buffer split into named parts) is one allocation: the fields are
+			// laid out back to back and a pointer to one of them may be used for the bytes that follow
+			allBytes := stt.NumFields() > 0
+			var total int64
+			for i := 0; i < stt.NumFields(); i++ {
+				at, ok := stt.Field(i).Type().Underlying().(*types.Array)
+				if !ok || elemSize(at.Elem()) != 1 {
+					allBytes = false
+					break
+				}
+				total += at.Len()
+			}
+			if allBytes {
+				id := d.newGObj(st, name, pC(total), true)
+				if st.gfields == nil {
+					st.gfields = map[string]sVal{}
+				}
+				var off int64
+				for i := 0; i < stt.NumFields(); i++ {
+					at := stt.Field(i).Type().Underlying().(*types.Array)
+					st.gfields[name+"."+stt.Field(i).Name()] = gArr{id, int(at.Len()), 1, off}
+					off += at.Len()
+				}
+				st.gfields[name+".#"] = gArr{id, int(total), 1, 0}
+			}
 			return true
 		}
 	case *ssa.MakeSlice:
@@ -144,13 +171,13 @@ func (d *protoDom) glueStep(st *sState, in ssa.Instruction) bool {
 		case gSlice:
 			base = v
 		case gArr:
-			base = gSlice{v.obj, pC(0), pC(int64(v.n)), pC(int64(v.n)), v.esz}
+			base = gSlice{v.obj, pC(v.base), pC(int64(v.n)), pC(int64(v.n)), v.esz}
 		case gField:
 			fa, ok := d.fieldArray(st, v, x.X.Type())
 			if !ok {
 				return false
 			}
-			base = gSlice{fa.obj, pC(0), pC(int64(fa.n)), pC(int64(fa.n)), fa.esz}
+			base = gSlice{fa.obj, pC(fa.base), pC(int64(fa.n)), pC(int64(fa.n)), fa.esz}
 		default:
 			return false
 		}
@@ -194,7 +221,7 @@ func (d *protoDom) glueStep(st *sState, in ssa.Instruction) bool {
 		case gArr:
 			d.gOblige(st, "INDEX-BOUNDS", idx, token.GEQ, pC(0), "index", pos)
 			d.gOblige(st, "INDEX-BOUNDS", idx, token.LSS, pC(int64(v.n)), "index against the array length", pos)
-			st.vals[x] = gPtr{v.obj, pMul(pC(int64(v.esz)), idx), v.esz}
+			st.vals[x] = gPtr{v.obj, pAdd(pC(v.base), pMul(pC(int64(v.esz)), idx)), v.esz}
 			return true
 		}
 	case *ssa.FieldAddr:
@@ -256,6 +283,16 @@ func (d *protoDom) glueStep(st *sState, in ssa.Instruction) bool {
 				}
 			}
 		}
+	case *ssa.SliceToArrayPointer:
+		// (*[N]T)(s): panics unless len(s) >= N; the result views the first N elements
+		if sl, ok := e.get(st, x.X).(gSlice); ok {
+			if at, ok := x.Type().Underlying().(*types.Pointer).Elem().Underlying().(*types.Array); ok {
+				n := pC(at.Len())
+				d.gOblige(st, "SLICE-BOUNDS", sl.ln, token.GEQ, n, "conversion of a slice to an array pointer", pos)
+				st.vals[x] = gSlice{sl.obj, sl.off, n, n, sl.esz}
+				return true
+			}
+		}
 	case *ssa.MakeInterface:
 		if rv, ok := e.get(st, x.X).(gRecv); ok {
 			st.vals[x] = rv // an interface holding the pointer to a modelled object: keep its identity
@@ -300,7 +337,7 @@ func (d *protoDom) fieldValue(st *sState, f gField, t types.Type) sVal {
 	case *types.Array:
 		esz := elemSize(u.Elem())
 		id := d.newGObj(st, key, pC(u.Len()*int64(esz)), strings.HasPrefix(f.recv, "local ")) // a local struct starts zeroed
-		v = gArr{id, int(u.Len()), esz}
+		v = gArr{id, int(u.Len()), esz, 0}
 	case *types.Interface:
 		v = gCipher{}
 	case *types.Pointer:
@@ -341,7 +378,10 @@ func (d *protoDom) bytesBehind(st *sState, v sVal) (avail *pt, obj int, off *pt,
 		// a slice guarantees len elements from its start
 		return pMul(pC(int64(x.esz)), x.ln), x.obj, x.off, true
 	case gArr:
-		return pC(int64(x.n * x.esz)), x.obj, pC(0), true
+		if h := d.gobj(st, x.obj); h != nil && x.base != 0 {
+			return pAdd(h.size, pC(-x.base)), x.obj, pC(x.base), true // the rest of the enclosing struct is the same allocation
+		}
+		return pC(int64(x.n * x.esz)), x.obj, pC(x.base), true
 	case sNil:
 		return pC(0), 0, pC(0), true
 	}
@@ -573,7 +613,7 @@ func gShape(v sVal) (gSlice, bool) {
 	case gSlice:
 		return x, true
 	case gArr:
-		return gSlice{x.obj, pC(0), pC(int64(x.n)), pC(int64(x.n)), x.esz}, true
+		return gSlice{x.obj, pC(x.base), pC(int64(x.n)), pC(int64(x.n)), x.esz}, true
 	}
 	return gSlice{}, false
 }
